@@ -11,7 +11,7 @@
 (*   raw    [b, st, d]         d = decode_text_string(b) for arbitrary bytes                        *)
 (*   ext    [parts, st1, r1, st2, r2]  a page showing parts[i].b with a font whose encoding is      *)
 (*          parts[i].e; r1 = extract_text, r2 = extract_text after save_to + load_mem               *)
-(*   vtab   [e, fv, st, ds]    the 256 cells decode_text yields through a *different* font          *)
+(*   vtab   [e, fv, form, st, ds]  the 256 cells decode_text yields through a *different* font          *)
 (*          dictionary fv (other BaseFont / Subtype / widths / descriptor) with the same /Encoding     *)
 (*          name e and no /ToUnicode: the encoding is named by /Encoding, so the published rows apply  *)
 (*          and the table is the one logged for e                                                      *)
@@ -97,8 +97,13 @@ JExt(r) ==
     IN IF ncell # NCells THEN Fail(<<"tool:tables-not-logged-first">>, <<>>)
        ELSE IF \E i \in 1..n : r.parts[i].e \notin EncNames \/ DecodeT(tab[r.parts[i].e], r.parts[i].b) # r.parts[i].t
             THEN Fail(<<"tool:ext-case-inconsistent">>, <<>>)
-       ELSE Verdict(If(~(r.st1 = "ok" /\ Match(ts, r.r1)), "extract.fresh")
-                    \o If(~(r.st2 = "ok" /\ Match(ts, r.r2)), "extract.reloaded"), "extract", <<>>)
+       ELSE LET \* what the page would read if every font whose /Encoding is not a plain name fell back to StandardEncoding
+                fb == [i \in 1..n |-> IF r.parts[i].form # "name" THEN DecodeT(tab["StandardEncoding"], r.parts[i].b) ELSE ts[i]]
+                forms == {r.parts[i].form : i \in {j \in 1..n : r.parts[j].form # "name" /\ fb[j] # ts[j]}}
+                Why(st, res, clause) == IF st = "ok" /\ Match(ts, res) THEN <<>>
+                                        ELSE IF st = "ok" /\ forms # {} /\ Match(fb, res) THEN SetToSeq({"encoding-form." \o f : f \in forms})
+                                        ELSE <<clause>>
+            IN Verdict(Why(r.st1, r.r1, "extract.fresh") \o Why(r.st2, r.r2, "extract.reloaded"), "extract", <<>>)
 
 \* the same encoding name reached through another font dictionary
 JVTab(r) ==
@@ -109,7 +114,14 @@ JVTab(r) ==
              badpub == {b \in 0..255 : ~CellOk(cell(b)) \/ ~PublishedOk(r.e, b, cell(b))}
              baddep == {b \in 0..255 : cell(b) # tab[r.e][b]}
              some(S) == CHOOSE b \in S : \A c \in S : b <= c
-         IN [Verdict(If(badpub # {}, "table.published") \o If(baddep # {}, "table.fontdict"), "vtab", <<>>)
+             \* the encoding is named through a reference or a /BaseEncoding-only dictionary and what comes back is
+             \* exactly the StandardEncoding table: the form of the entry was not understood (fallback)
+             fallback == r.form # "name" /\ baddep # {} /\ \A b \in 0..255 : cell(b) = tab["StandardEncoding"][b]
+         IN IF fallback
+            THEN [Fail(<<"encoding-form." \o r.form>>, <<>>) EXCEPT !.cat = "vtab",
+                      !.bad = <<[c |-> some(baddep), n |-> Cardinality(baddep), vs |-> <<"encoding-form." \o r.form>>]>>]
+            ELSE
+            [Verdict(If(badpub # {}, "table.published") \o If(baddep # {}, "table.fontdict"), "vtab", <<>>)
                EXCEPT !.bad = (IF badpub # {} THEN <<[c |-> some(badpub), n |-> Cardinality(badpub), vs |-> <<"table.published">>]>> ELSE <<>>)
                               \o (IF baddep # {} THEN <<[c |-> some(baddep), n |-> Cardinality(baddep), vs |-> <<"table.fontdict">>]>> ELSE <<>>)]
 
